@@ -148,16 +148,111 @@ func (e *Engine) execIf(st *State, b *ssa.BasicBlock, in *ssa.If) []outcome {
 	}
 	s2 := st.clone()
 	st.assume(c)
+	e.refineFromTable(st, c)
 	if lblT != "" {
 		st.label(lblT)
 	}
-	outs := e.execBlock(st, b.Succs[0], 0)
+	outs := e.guarded(st, func() []outcome { return e.execBlock(st, b.Succs[0], 0) })
 	s2.assume(smt.Not(c))
 	if lblF != "" {
 		s2.label(lblF)
 	}
-	outs = append(outs, e.execBlock(s2, b.Succs[1], 0)...)
+	outs = append(outs, e.guarded(s2, func() []outcome { return e.execBlock(s2, b.Succs[1], 0) })...)
 	return outs
+}
+
+// refineFromTable: after assuming a branch condition, learn concrete values:
+// tbl(x) == c with a single preimage gives x; (select ...) == const gives the
+// read byte. The values are substituted into the state and the pending
+// unfolding hypotheses of the active loops are re-stated in simplified form.
+func (e *Engine) refineFromTable(st *State, c *smt.Term) {
+	sub := map[*smt.Term]*smt.Term{}
+	var visit func(c *smt.Term)
+	visit = func(c *smt.Term) {
+		if c.Op == "and" {
+			for _, a := range c.Args {
+				visit(a)
+			}
+			return
+		}
+		if c.Op != "=" {
+			return
+		}
+		a, b := c.Args[0], c.Args[1]
+		if a.IsConst() {
+			a, b = b, a
+		}
+		if !b.IsConst() || a.IsConst() {
+			return
+		}
+		if a.Op == "select" {
+			sub[a] = b
+			return
+		}
+		if a.Op != "app" || len(a.Args) != 1 || a.Args[0].IsConst() {
+			return
+		}
+		d, ok := smt.FunDefs[a.Name]
+		if !ok || d.Table == nil || !b.Val.IsInt64() {
+			return
+		}
+		var pre []int64
+		for i, v := range d.Table {
+			if v == b.Val.Int64() {
+				pre = append(pre, int64(i))
+			}
+		}
+		if len(pre) == 1 {
+			v := smt.IntC(pre[0])
+			st.assume(smt.Eq(a.Args[0], v))
+			sub[a.Args[0]] = v
+		}
+	}
+	visit(c)
+	if len(sub) == 0 {
+		return
+	}
+	e.substState(st, sub)
+	for fr := st.fr; fr != nil; fr = fr.parent {
+		for h, act := range fr.active {
+			changed := false
+			nu := make([]*smt.Term, len(act.uses))
+			for i, u := range act.uses {
+				nu[i] = smt.Subst(u, sub)
+				if nu[i] != u {
+					changed = true
+					st.assume(nu[i])
+				}
+			}
+			if changed {
+				na := *act
+				na.uses = nu
+				fr.active[h] = &na
+			}
+		}
+	}
+}
+
+// guarded runs one branch; a construct outside the subset fails that path only.
+func (e *Engine) guarded(st *State, f func() []outcome) (outs []outcome) {
+	if e.pure > 0 {
+		return f()
+	}
+	defer func() {
+		if r := recover(); r != nil {
+			u, ok := r.(Unsupported)
+			if !ok {
+				panic(r)
+			}
+			if strings.Contains(u.Msg, "path limit") {
+				panic(r)
+			}
+			e.cur.unsupp = append(e.cur.unsupp, u.Msg)
+			e.Obligs = append(e.Obligs, &Oblig{Name: e.cur.name(st, "subset", ""), Kind: "subset", Props: []string{"SAFETY"}, Func: funcDisplay(e.cur.fn), Goal: smt.False, pc: st.pc, Note: u.Error()})
+			outs = nil
+		}
+	}()
+	return f()
 }
 
 // branchLabels names the two directions of a branch.
